@@ -68,7 +68,9 @@ def cxx_plan(c):
             lines = ['cxh.new cls=%s obj=1 how=default' % cls]
             for form in rng.sample(['ptr', 'cstr', 'string', 'ba', 'cstrnull'], 5):
                 n = rng.choice([0, 1, 7, 8, 9, 20])
-                lines.append('cxh.absorb obj=1 in=%s form=%s null_if_empty=%d' % (text(n) if form in ('cstr', 'string') else hx(pattern(rng, n)), form, rng.randrange(2)))
+                # a std::string carries its length: bytes after an embedded NUL count (a C string stops there)
+                withnul = lambda n: hx(bytes((0 if (i == n // 2 or rng.random() < 0.2) else rng.randrange(1, 256)) for i in range(n)))
+                lines.append('cxh.absorb obj=1 in=%s form=%s null_if_empty=%d' % (text(n) if form == 'cstr' else (withnul(n) if form == 'string' else hx(pattern(rng, n))), form, rng.randrange(2)))
             lines.append('cxh.new cls=%s obj=2 how=copy src=1' % cls)
             lines.append('cxh.absorb obj=2 in=%s form=ptr' % hx(pattern(rng, 5)))
             lines.append('cxh.new cls=%s obj=3 how=default' % cls)
@@ -78,7 +80,7 @@ def cxx_plan(c):
                 lines.append('cxh.squeeze obj=%d n=%d form=%s' % (o, rng.choice([0, 1, 8, 13, 32, 40]), rng.choice(['ptr', 'ba'])))
                 if not ishash: lines.append('cxh.squeeze obj=%d n=%d form=%s' % (o, rng.choice([3, 8, 21]), rng.choice(['ptr', 'ba'])))
             if not ishash:
-                lines += ['cxh.pad obj=1', 'cxh.absorb obj=1 in=%s form=string' % text(4), 'cxh.pad obj=1', 'cxh.squeeze obj=1 n=9 form=ba']
+                lines += ['cxh.pad obj=1', 'cxh.absorb obj=1 in=%s form=string' % hx(bytes([65, 0, 66, 67])), 'cxh.pad obj=1', 'cxh.squeeze obj=1 n=9 form=ba']
             lines += ['cxh.reset obj=2', 'cxh.absorb obj=2 in=%s form=cstr' % text(11), 'cxh.squeeze obj=2 n=32 form=ptr']
             lines += ['cxh.del obj=1', 'cxh.del obj=2', 'cxh.del obj=3']
             p.case(lines, cost=3.0); c.distinct([(cls, 'members', rep)])
@@ -120,6 +122,17 @@ def run(c):
         c.violation('compile:' + (re.sub(r'.*/src/', '', first[0].split(': error')[0]) if first else 'cxx'), 'C++ members do not compile when used: ' + ' | '.join(first), rd)
     else:
         c.tv(cxx_plan(c), 'rel', 'cxx', drv=drv, max_cost=20.0)
+    # (1b) the cipher classes' members through each class's own static type
+    build('rel')
+    cmd2 = 'g++ -std=c++11 -fsyntax-only -Wall -DHAVE_CONFIG_H -I%s/src -I%s/lib/rel %s/harness/cxx/use_members.cpp' % (REPO, BUILD, ROOT)
+    rc2, out2 = sh(cmd2, timeout=300)
+    c.cov['evaluations'] += 1; c.distinct([('compile', 'use_members')])
+    if rc2 != 0:
+        rd = c.replay_dir('compile_members')
+        with open(rd + '/compile.log', 'w') as f: f.write(out2)
+        with open(rd + '/replay.sh', 'w') as f: f.write('#!/bin/sh\n' + cmd2 + '\n')
+        first = [l for l in out2.split('\n') if 'error' in l][:3]
+        c.violation('compile:' + (re.sub(r'.*/src/', '', first[0].split(': error')[0]) if first else 'members'), 'cipher class members do not compile when used: ' + ' | '.join(first), rd)
     # (2) cipher classes: every construction and keying path
     c.tv(cipher_plan(c), 'rel', 'cipher', max_cost=20.0)
     c.cov['rule'] = 'one case per (class, construction/keying path) followed by encryptions judged against the C-level specification; members of the header-only classes replayed as sponge objects; distinct = (class, path)'
